@@ -70,6 +70,10 @@ class Tables:
                 self.direct[name].append(s["m"])
             elif s["k"] == "trans":
                 self._body(s["name"], s.get("ready"), s["block"])
+            elif s["k"] in ("if", "switch", "fsm"):  # calls inside control structures are part of the static call tree
+                from ..core.simulgen import calls_of
+
+                self.direct[name] += [c["m"] for c in calls_of([s])]
             elif s["k"] == "cond":
                 u = s["_use"]
                 conds = [br["c"] for br in s["branches"]]
@@ -121,7 +125,20 @@ def _local_admissible(T: Tables, bits, use: dict, k: int) -> bool:
     nm = use["names"][k]
     if not _cond(use, bits, k) or not _callees_ready(T, bits, nm):
         return False
-    for u2 in T.conds_in.get(nm, []):
+    return _conds_ok(T, bits, nm)
+
+
+def _conds_reachable(T: Tables, name: str, skip=None) -> list:
+    """the condition() uses written in `name` or in a method of its static call tree (their branch transactions are
+    merged into every transaction that executes `name`)"""
+    out = [u for u in T.conds_in.get(name, []) if u != skip]
+    for m in sorted(T.callees(name)):
+        out += T.conds_in.get(m, [])
+    return out
+
+
+def _conds_ok(T: Tables, bits, name: str, skip=None) -> bool:
+    for u2 in _conds_reachable(T, name, skip):
         inner = T.uses[u2]
         if not any(_local_admissible(T, bits, inner, j) for j in range(len(inner["names"]))):
             return False
@@ -180,8 +197,7 @@ def monitor(b, vals, obs):
             #     from the inputs alone: the parent is a top-level transaction whose callees nobody else calls.
             if use["nb"] and P in T.alone and not run(P):
                 none_holds = not any(bits[c] for c in use["conds"] if c is not None)
-                others_ok = all(any(_local_admissible(T, bits, T.uses[u2], j) for j in range(len(T.uses[u2]["names"])))
-                                for u2 in T.conds_in.get(P, []) if u2 != use["u"])
+                others_ok = _conds_ok(T, bits, P, skip=use["u"])
                 default_ok = use["implicit"] or _local_admissible(T, bits, use, len(names) - 1)
                 if none_holds and default_ok and _ready(T, bits, P) and _callees_ready(T, bits, P) and others_ok:
                     return (f"nonblocking condition u{use['u']} blocks {P}: no condition holds, {P} and its callees are ready, "
@@ -200,7 +216,8 @@ def _b(bits) -> str:
 
 
 # ------------------------------------------------------------------------------------ generators
-KINDS = ["basic", "chain", "method1", "methodN", "nested", "two", "chain", "basic", "methodN", "nested", "free", "chain"]
+KINDS = ["basic", "chain", "deep", "guardcall", "method1", "methodN", "nested", "two", "chain", "basic", "deep", "guardcall",
+         "methodN", "nested", "free", "chain"]
 
 
 def _has_two_prio(spec: dict) -> bool:
@@ -216,7 +233,16 @@ def _has_two_prio(spec: dict) -> bool:
                     n += count(br["block"])
         return n
 
-    return any(count(it["block"]) >= 2 for it in spec["items"])
+    top = {it["name"]: it for it in spec["items"]}
+
+    def reach(nm, seen):
+        for m in _all_calls(top[nm]["block"]):
+            if m in top and m not in seen:
+                seen.add(m)
+                reach(m, seen)
+        return seen
+
+    return any(sum(count(top[m]["block"]) for m in reach(it["name"], {it["name"]})) >= 2 for it in spec["items"])
 
 
 def _all_calls(block) -> list:
@@ -229,6 +255,9 @@ def _all_calls(block) -> list:
                 out += _all_calls(br["block"])
         elif s["k"] == "trans":
             out += _all_calls(s["block"])
+        elif s["k"] in ("if", "switch", "fsm"):
+            for a in s.get("alts", []) + s.get("cases", []) + s.get("states", []):
+                out += _all_calls(a["items"])
     return out
 
 
@@ -247,6 +276,10 @@ def descriptor(spec: dict) -> dict:
                     walk((owner, id(s), k), br["block"])
             elif s["k"] == "trans":
                 walk(s["name"], s["block"])
+            elif s["k"] in ("if", "switch", "fsm"):  # a call inside a control structure is a conditional call
+                for m in _all_calls([s]):
+                    callers.setdefault(m, []).append("guard")
+                    direct.setdefault(owner, set()).add(m)
 
     for it in spec["items"]:
         walk(it["name"], it["block"])
@@ -394,6 +427,22 @@ def directed() -> list[dict]:
         host, {"k": "method", "name": "M1", "ready": None, "nx": 0, "block": [_call("M0")]},
         {"k": "method", "name": "M2", "ready": None, "nx": 0, "block": [_call("M1", en=3)]},
         {"k": "trans", "name": "T0", "ready": 1, "block": [_call("M2", en=2)]}], "c12:directed-chain3"))
+    # T --enable_call--> outer{condition: branch -> mid}, mid -> leaf{condition: branch -> x0}
+    out.append(_mk(5, [("x0", None)], [
+        {"k": "method", "name": "M0", "ready": None, "nx": 0, "block": [
+            {"k": "cond", "nb": 0, "prio": 0, "branches": [{"c": 1, "block": [_call("x0")]}]}]},
+        {"k": "method", "name": "M1", "ready": None, "nx": 0, "block": [_call("M0")]},
+        {"k": "method", "name": "M2", "ready": None, "nx": 0, "block": [
+            {"k": "cond", "nb": 0, "prio": 0, "branches": [{"c": 0, "block": [_call("M1")]}]}]},
+        {"k": "trans", "name": "T0", "ready": 2, "block": [_call("M2", en=3)]}], "c12:directed-deep"))
+    # a method with condition() called from inside an FSM state (and a Switch case) written in a transaction body
+    for form in ("fsm", "switch"):
+        inner = ({"k": "fsm", "sel": [3], "states": [{"items": []}, {"items": [_call("M0")]}]} if form == "fsm" else
+                 {"k": "switch", "sel": [3], "cases": [{"pat": 1, "items": [_call("M0")]}, {"pat": None, "items": []}]})
+        out.append(_mk(4, [("x0", None), ("x1", None)], [
+            {"k": "method", "name": "M0", "ready": None, "nx": 0, "block": [
+                {"k": "cond", "nb": 0, "prio": 0, "branches": [{"c": 0, "block": [_call("x0")]}, {"c": 1, "block": [_call("x1")]}]}]},
+            {"k": "trans", "name": "T0", "ready": 2, "block": [inner]}], f"c12:directed-call-in-{form}"))
     # uncalled method with a condition (its branches are dropped by the manager)
     out.append(_mk(3, [("x0", None)], [
         {"k": "method", "name": "M0", "ready": None, "nx": 0, "block": [
